@@ -9,6 +9,7 @@ package main
 import (
 	"fmt"
 	"go/types"
+	"strings"
 
 	"golang.org/x/tools/go/ssa"
 )
@@ -24,7 +25,22 @@ type iterState struct {
 	pos  int
 }
 
+// envOf: the store a context belongs to (verif.NewEnv gives every environment its own id).
+func envOf(ctx value) int {
+	for {
+		switch x := ctx.(type) {
+		case iface:
+			ctx = x.v
+			continue
+		case *opaque:
+			return x.id
+		}
+		return 0
+	}
+}
+
 func (st *State) coll(name string) *collStore {
+	name = fmt.Sprintf("%d/%s", st.curEnv, name)
 	if st.colls == nil {
 		st.colls = map[string]*collStore{}
 	}
@@ -565,6 +581,26 @@ func addCollections(m map[string]intrinsic) {
 		pr := new(value)
 		*pr = zero(prT)
 		return tuple{out, pr, iface{}}
+	}
+}
+
+// withEnv makes the collection intrinsics operate on the store of their context argument.
+func withEnv(m map[string]intrinsic) {
+	for name, in := range m {
+		in := in
+		switch {
+		case name == "github.com/cosmos/cosmos-sdk/types/query.CollectionPaginate":
+			m[name] = func(st *State, fr *frame, a []value, cc *ssa.CallCommon) value {
+				st.curEnv = envOf(a[0])
+				return in(st, fr, a, cc)
+			}
+		case strings.HasPrefix(name, "(cosmossdk.io/collections.KeySet[K])."), strings.HasPrefix(name, "(cosmossdk.io/collections.Item[V])."),
+			strings.HasPrefix(name, "(*cosmossdk.io/collections.IndexedMap[PrimaryKey, Value, Idx])."):
+			m[name] = func(st *State, fr *frame, a []value, cc *ssa.CallCommon) value {
+				st.curEnv = envOf(a[1])
+				return in(st, fr, a, cc)
+			}
+		}
 	}
 }
 
